@@ -8,6 +8,7 @@ import sys
 from harness.common import LEAN, REPO
 
 OUT = os.path.join(LEAN, 'Dlismodel', 'Generated', 'Tables.lean')
+OUT_CONVS = os.path.join(LEAN, 'Dlismodel', 'Generated', 'Convs.lean')
 
 
 def lstr(s):
@@ -58,6 +59,7 @@ def introspect():
     t['sets'] = sets
     t['attrs'] = attr_schema()
     t['enums'] = enum_tables()
+    t['convs'] = conv_schema()
     return t
 
 
@@ -122,6 +124,73 @@ def attr_schema():
     return out
 
 
+def _conv_of(a):
+    """Lean term (constructor of Dlis.Conv) naming the converter attached to a live Attribute."""
+    from dliswriter.logical_record.core.attribute import subtypes as st
+    from dliswriter.utils.internal import value_checkers as vc
+    from dliswriter.utils.internal.validator_enum import ValidatorEnum
+    conv = a._converter
+    b = lambda x: 'true' if x else 'false'
+
+    def cls_term():
+        oc = getattr(a, '_object_class', None)
+        return 'none' if oc is None or not isinstance(oc.set_type, str) else f'(some "{oc.set_type}")'
+    bound = getattr(conv, '__self__', None) is a
+    fn = getattr(conv, '__func__', conv)
+    if type(a) is st.EFLROrTextAttribute and bound and fn is st.EFLROrTextAttribute._convert_value:
+        return f'.eflrOrText {cls_term()}'
+    if type(a) is st.EFLRAttribute and bound and fn is st.EFLRAttribute._convert_value:
+        return f'.eflr {cls_term()}'
+    if type(a) is st.DTimeAttribute and bound and fn is st.DTimeAttribute._convert_value:
+        return f'.dtime {b(a._allow_float)}'
+    if type(a) in (st.NumericAttribute, st.DimensionAttribute) and bound and fn is st.NumericAttribute._convert_number:
+        return f'.numeric {b(a._int_only)}'
+    if type(a) is st.StatusAttribute and conv is st.StatusAttribute.convert_status:
+        return '.status'
+    if type(a) is st.TextAttribute and conv is st.TextAttribute._check_string:
+        return '.text'
+    if type(a).__name__ in ('Attribute', 'IdentAttribute', 'PropertiesAttribute'):
+        if conv is None:
+            return '.ident'
+        if conv is vc.validate_string:
+            return '.validateString'
+        if conv is vc.convert_maybe_numeric:
+            return '.maybeNumeric'
+        code = getattr(conv, '__code__', None)
+        if code is not None and conv.__qualname__ == 'ValidatorEnum.make_converter.<locals>.converter':
+            cells = dict(zip(code.co_freevars, (c.cell_contents for c in conv.__closure__)))
+            c = cells.get('cls')
+            if isinstance(c, type) and issubclass(c, ValidatorEnum):
+                return f'.enum "{c.__name__}" {b(cells.get("soft"))} {b(cells.get("allow_none"))}'
+    return f'.custom "{type(a).__name__}:{getattr(conv, "__qualname__", type(conv).__name__)}"'
+
+
+def conv_schema():
+    """per set type: [(label, converter term, valid representation codes)]"""
+    from dliswriter.logical_record import eflr_types
+    out = []
+    for cls in eflr_types.eflr_sets:
+        if cls is eflr_types.FileHeaderSet:
+            continue
+        it = _probe(cls)
+        out.append((cls.set_type, [(a.label, _conv_of(a), sorted(int(rc.value) for rc in a._valid_repr_codes))
+                                   for a in it.attributes.values()]))
+    return out
+
+
+def render_convs(t, namespace='Dlis.Generated', header='GENERATED by harness/gen_tables.py from the live dliswriter package. Do not edit.'):
+    L = [f'/- {header} -/', 'import Dlismodel.Model.Convert', f'namespace {namespace}', 'open Dlis',
+         '/-- per set type: (label, converter attached to the attribute, `_valid_repr_codes`) -/',
+         'def convs : List (String × List (String × Conv × List Nat)) := [']
+    rows = []
+    for st, ats in t['convs']:
+        rows.append(f'  ("{st}", [\n' + ',\n'.join(f'    ("{l}", {c}, {v})' for l, c, v in ats) + '])')
+    L.append(',\n'.join(rows))
+    L.append(']')
+    L.append(f'end {namespace}')
+    return '\n'.join(L) + '\n'
+
+
 def enum_tables():
     from dliswriter.utils import enums
     from dliswriter.utils.internal.validator_enum import ValidatorEnum
@@ -179,16 +248,22 @@ def render(t):
     return '\n'.join(L) + '\n'
 
 
-def generate():
-    txt = render(introspect())
-    old = open(OUT).read() if os.path.exists(OUT) else None
+def _write_if_changed(path, txt):
+    old = open(path).read() if os.path.exists(path) else None
     if old != txt:
-        tmp = OUT + f'.{os.getpid()}.tmp'
+        tmp = path + f'.{os.getpid()}.tmp'
         with open(tmp, 'w') as f:
             f.write(txt)
-        os.replace(tmp, OUT)
+        os.replace(tmp, path)
         return True
     return False
+
+
+def generate():
+    t = introspect()
+    a = _write_if_changed(OUT, render(t))
+    b = _write_if_changed(OUT_CONVS, render_convs(t))
+    return a or b
 
 
 if __name__ == '__main__':
